@@ -1207,7 +1207,7 @@ def impl_route2(case, val, scratch, idx):
                 fails.append(("roundtrip", "Configuration stores %s; read "
                               "back %s" % (short(ref[1]), short(obs[1]))))
             cn = conv_name_of(sec, lk)
-            bad = value_check(cn, val, obs[1]) if cn else None
+            bad = value_check(cn, val, obs[1], True) if cn else None
             if bad:
                 fails.append(("value", "after write/read: " + bad))
             typ = dfn.get_config_value_type(sec, lk)
@@ -1375,7 +1375,7 @@ def bits_equal(a, b):
     return type(a) is type(b) and (a == b or (a != a and b != b))
 
 
-def value_check(fname, val, got):
+def value_check(fname, val, got, stored_in_file=False):
     """None, or a description of how `got` differs from what plain Python
     says the converter `fname` must store for the input `val`"""
     try:
@@ -1384,7 +1384,14 @@ def value_check(fname, val, got):
         return None
     except Exception:
         return None
-    if not bits_equal(got, want):
+    if stored_in_file and fname == "fnumber":
+        # a number kept as it is comes back from HDF5 as numpy scalar (a
+        # bool as float): the value must be equal, the type is Number
+        import numbers
+        ok = isinstance(got, numbers.Number) and py_equal(want, got)
+    else:
+        ok = bits_equal(got, want)
+    if not ok:
         return "%s of %s must be %s (%s), got %s (%s)" % (
             fname, short(val), short(want), type(want).__name__,
             short(got), type(got).__name__)
@@ -1768,7 +1775,7 @@ def make_cases(run):
     rng = run.rng
     keys = all_keys(rng)
     fixed = fixed_values()
-    nrand = 400 if run.thorough else 60
+    nrand = 250 if run.thorough else 60
     rand_vals = [random_value(rng) for _ in range(nrand)]
     cases = list(load_corpus())
     run.count("corpus", len(cases))
@@ -2214,9 +2221,9 @@ def carry_chains(run, cases, impl):
                     fails.append("%s: %s:%s %s -> %s" % (
                         hop, s, k, short(want), short(got)))
                 elif conv_name_of(s, lk) and value_check(
-                        conv_name_of(s, lk), meta[s][k], got):
+                        conv_name_of(s, lk), meta[s][k], got, True):
                     fails.append("%s: %s:%s %s" % (hop, s, k, value_check(
-                        conv_name_of(s, lk), meta[s][k], got)))
+                        conv_name_of(s, lk), meta[s][k], got, True)))
                 elif not conv_name_of(s, lk) and not py_equal(meta[s][k],
                                                                got):
                     fails.append("%s: %s:%s input %s -> %s" % (
